@@ -434,6 +434,20 @@ func (a *analyzer) call(c *ast.CallExpr, L lockset) {
 			}
 		}
 	}
+	if se, ok := c.Fun.(*ast.SelectorExpr); ok {
+		if id, ok := se.X.(*ast.Ident); ok {
+			if v, ok := a.info.Uses[id].(*types.Var); ok && v.Pkg() == a.pkg && v.Parent() == a.pkg.Scope() {
+				t := v.Type()
+				if p, ok := t.(*types.Pointer); ok {
+					t = p.Elem()
+				}
+				if n, ok := t.(*types.Named); ok && n.Obj().Pkg() != nil && n.Obj().Name() == "Rand" &&
+					strings.HasPrefix(n.Obj().Pkg().Path(), "math/rand") {
+					a.recordGlobal(id, L, true) // a *rand.Rand is not safe for concurrent use: every method call mutates it
+				}
+			}
+		}
+	}
 	a.noteCall(c, L)
 	switch f := c.Fun.(type) {
 	case *ast.SelectorExpr:
@@ -495,6 +509,13 @@ func (a *analyzer) noteFresh(lhs []ast.Expr, rhs []ast.Expr) {
 				a.fresh[id.Name] = true
 			}
 		}
+	}
+}
+
+// publishAll: after a go statement the objects created in this function are no longer private to it
+func (a *analyzer) publishAll() {
+	for k := range a.fresh {
+		delete(a.fresh, k)
 	}
 }
 
@@ -594,6 +615,7 @@ func (a *analyzer) stmt(s ast.Stmt, L lockset) lockset {
 		}
 		a.call(v.Call, L)
 	case *ast.GoStmt:
+		defer a.publishAll() // whatever this function created may now be reached by the new goroutine
 		if f, ok := v.Call.Fun.(*ast.FuncLit); ok {
 			a.funcLit(f, lockset{}, "go")
 		} else {
